@@ -1493,8 +1493,10 @@ def _bernoulli_keyful_sample(key, probs, sample_shape=()):
     )
 
 
-def _geometric_keyful_sample(key, probs, sample_shape=()):
-    return tfd.Geometric(probs=probs).sample(seed=key, sample_shape=sample_shape)
+def _geometric_keyful_sample(key, logits, sample_shape=()):
+    # same parameterisation as `geometric.sample` / `geometric.logpdf` (first
+    # positional argument of tfd.Geometric), which score this primitive
+    return tfd.Geometric(logits).sample(seed=key, sample_shape=sample_shape)
 
 
 def _normal_keyful_sample(key, loc, scale, sample_shape=()):
